@@ -43,7 +43,8 @@ def _walk(items, classes, ats, others):
                     its.append(".cat %s" % lean_str(str(iav)))
                 else:
                     raise ValueError("set item %s not understood" % iname)
-            classes.append(".set %s [%s]" % ("true" if neg else "false", ", ".join(its)))
+            # a set is order-independent: sort its items so that `[^>\s]` and `[^\s>]` are the same
+            classes.append(".set %s [%s]" % ("true" if neg else "false", ", ".join(sorted(set(its)))))
         elif name == "AT":
             ats.append(lean_str(str(av)))
         elif name in ("MAX_REPEAT", "MIN_REPEAT", "POSSESSIVE_REPEAT"):
